@@ -110,4 +110,28 @@ def dupFlightOk (failed : Bool) (n returned nok nerr gets : Nat) (laterReturned 
   (if failed then nok == 0 && nerr == n && !laterHit && laterGets == 1
    else nerr == 0 && nok == n && laterHit && laterGets == 0)
 
+/-- the same with separate observation windows: the call started in `[sb, sa]`, ITS OWN reply arrived in `[ab, aa]` -/
+def expiryWindow2Ok (ttl pttl sb sa ab aa pxat : Int) : Bool :=
+  decide (expiryMs sb ttl ab pttl ≤ pxat) && decide (pxat ≤ expiryMs sa ttl aa pttl)
+
+/-! ### Close releases every waiter (C04 / C09) -/
+
+/-- `pending` = ids of the entries that were pending before `Close(err)`, `released` = ids whose waiters were woken
+    with `err` by it: the two sets must coincide, whatever the order of the recency list -/
+def closeOk (pending released : List Nat) : Bool :=
+  pending.all (released.contains ·) && released.all (pending.contains ·)
+
+/-- e2e: `n` callers were blocked on cached reads of a connection that was then lost; all must return, with an error -/
+def closeHangOk (n returned nerr : Nat) : Bool := returned == n && nerr == n
+
+/-! ### every hit is the server's reply for exactly that command (C06, batches mixing static-TTL and plain commands) -/
+def hitValueOk (valueIsServers : Bool) : Bool := valueIsServers
+
+/-! ### a failing call cancels only the flights it owns (C09, overlapping MGETs) -/
+
+/-- A's fetch of key a1 is in flight, W joined it, B (MGET a1 a2) joined a1 and fails on its own fetch of a2:
+    W and A get A's reply, a1 is cached afterwards (the next read is a hit) and a1 was requested once -/
+def mgetOwnOk (wReturned wOk aOk laterHit laterOk : Bool) (fetchesA1 : Nat) : Bool :=
+  wReturned && wOk && aOk && laterHit && laterOk && fetchesA1 == 1
+
 end Rv.Spec.Cache
